@@ -44,7 +44,7 @@ def dump (s : St) : String :=
     let l := match d.loc with
       | some l => toString l
       | none => "-"
-    s!"{hexS (dnName d.name)}:{l}:312f32")
+    s!"{hexS (dnName d.name)}:{l}:{hexS d.data}")
   s!"c={s.count} a={s.activeTab} S={S} M={M} P={P} K={K} T={T} R={R} D={D}"
 
 def specObs (b : Spec.Book) : String :=
@@ -77,8 +77,11 @@ def parseOp (w : List String) : Option Op :=
   | "grp" :: hs => (hs.mapM unhexS).map Op.group
   | ["ungrp"] => some Op.ungroup
   | ["defn", k, h] => match k.toNat?, unhexS h with
-    | some k, some n => some (Op.defname k n)
+    | some k, some n => some (Op.defname k n (bytesOf "1/2"))
     | _, _ => none
+  | ["defn", k, h, dt] => match k.toNat?, unhexS h, unhexS dt with
+    | some k, some n, some d => some (Op.defname k n d)
+    | _, _, _ => none
   | ["deln", k, h] => match k.toNat?, unhexS h with
     | some k, some n => some (Op.deldef k n)
     | _, _ => none
